@@ -48,7 +48,12 @@ CONFIGS = {
     # the stages a run leaves out leave files out as well: quantification only, grouped by a BAM tag, with exon / intron tables
     "no-model-construction": dict(n_chroms=2, extra=["--no_model_construction", "--count_exons", "--read_group", "tag:RG"]),
     # the reference as an ordinary gzip file (not BGZF): IsoQuant works on an uncompressed copy that it writes into the output folder
+    # (every run has its own copy of the compressed file, so every run builds the index next to it, too: those writes are crash points)
     "gz-reference": dict(n_chroms=2, extra=[], ref_gz=True),
+    # ... as a BGZF file: read in place through an index pair (.fai, .gzi) that is built next to the file
+    "bgzf-reference": dict(n_chroms=2, extra=[], ref_gz=True, bgzf=True),
+    # ... a --force run in a folder where a completed earlier run left ITS uncompressed copy of ANOTHER genome that has the same file name
+    "gz-reference-over-previous-run": dict(n_chroms=2, extra=[], ref_gz=True, dirty=True),
     # output folder and inputs given RELATIVE to the working directory of the first run; --resume is issued from another directory with an
     # absolute -o (what the saved parameters hold must not depend on where the first run was started)
     "relative-paths": dict(n_chroms=2, extra=[], relative=True),
@@ -86,8 +91,24 @@ def make_inputs(cfg, d, seed):
     if cfg.get("ref_gz"):
         import gzip
         os.makedirs(os.path.join(d, "gz"), exist_ok=True)
-        with open(os.path.join(d, "g.fa"), "rb") as f_, gzip.open(os.path.join(d, "gz", "g.fa.gz"), "wb") as g_:
-            g_.write(f_.read())
+        if cfg.get("bgzf"):
+            import pysam
+            pysam.tabix_compress(os.path.join(d, "g.fa"), os.path.join(d, "gz", "g.fa.gz"), force=True)
+        else:
+            with open(os.path.join(d, "g.fa"), "rb") as f_, gzip.open(os.path.join(d, "gz", "g.fa.gz"), "wb") as g_:
+                g_.write(f_.read())
+        if cfg.get("dirty"):
+            # the earlier run's genome: same file name, same sequence names and lengths, every sequence reversed
+            os.makedirs(os.path.join(d, "gz_earlier"), exist_ok=True)
+            with open(os.path.join(d, "g.fa")) as f_, gzip.open(os.path.join(d, "gz_earlier", "g.fa.gz"), "wt") as g_:
+                name_, seq_ = None, []
+                for line_ in list(f_) + [">"]:
+                    if line_.startswith(">"):
+                        if name_:
+                            g_.write(name_ + "".join(seq_)[::-1] + "\n")
+                        name_, seq_ = line_, []
+                    else:
+                        seq_.append(line_.strip())
     if cfg.get("rg_file_name"):
         extra += ["--read_group", "file_name"]
         # the file is passed through a symbolic link with another name (a staging folder): the group is named after what stands on the command line
@@ -132,7 +153,7 @@ def run(chk, scratch):
                 "directory of a -t 1 run, after .params was written; the run is killed (os._exit) immediately before it and continued with --resume (every second point with --threads 3); "
                 "quick: every distinct call site (function, operation, file kind) of 2 configurations once + random fill; thorough: every crash "
                 "point of every configuration + multi-process kills. non-trivial = distinct call sites crashed at")
-    conf_names = list(CONFIGS) if thorough else ["multi-chrom-groups-exons", "annotation-free", "force-over-previous-run", "from-saved-assignments", "two-experiments", "inferred-genes", "file-name-groups-one-file", "many-options", "no-model-construction", "gz-reference", "relative-paths", "relative-yaml"]
+    conf_names = list(CONFIGS) if thorough else ["multi-chrom-groups-exons", "annotation-free", "force-over-previous-run", "from-saved-assignments", "two-experiments", "inferred-genes", "file-name-groups-one-file", "many-options", "no-model-construction", "gz-reference", "relative-paths", "relative-yaml", "bgzf-reference", "gz-reference-over-previous-run"]
     if os.environ.get("VERIF_C07_CONFIGS"):       # debugging aid: restrict the run to some configurations (the verdict is then only about those)
         conf_names = [c for c in conf_names if c in os.environ["VERIF_C07_CONFIGS"].split(",")]
     total_points = 0
@@ -141,7 +162,8 @@ def run(chk, scratch):
     per_conf = {}
     for cname in conf_names:
         cfg = CONFIGS[cname]
-        d = os.path.join(scratch, cname)
+        # (one configuration works in a folder whose name has characters that are special in glob patterns)
+        d = os.path.join(scratch, cname + ("[1]" if cname == "force-over-previous-run" else ""))
         extra = make_inputs(cfg, d, chk.seed * 7 + len(cname))
         # clean run with the counting monitor
         clean = os.path.join(d, "clean")
@@ -159,6 +181,8 @@ def run(chk, scratch):
             stale = os.path.join(d, "stale")
             a_args = args_for(cfg, d, stale, extra + ["--keep_tmp"])
             a_args[a_args.index("--bam") + 1] = half
+            if cfg.get("ref_gz"):
+                a_args[a_args.index("-r") + 1] = os.path.join(d, "gz_earlier", "g.fa.gz")
             ra = runner.run_isoquant(a_args, os.path.join(d, "home"))
             if ra["rc"] != 0:
                 raise runner.Inconclusive("could not prepare the stale folder: " + pipeline.fail_text(ra))
@@ -176,7 +200,7 @@ def run(chk, scratch):
             saves_src = os.path.join(d, "saving", pipeline.PREFIX, "aux")
             shutil.copytree(saves_src, os.path.join(d, "saves_clean"))
         r = runner.run_isoquant(args_for(cfg, d, clean, extra, saves=os.path.join(d, "saves_clean") if saves_src else None), os.path.join(d, "home"), mon=["crash"],
-                                cfg={"crash_root": clean}, events=ev, cwd=d if cfg.get("relative") else None)
+                                cfg={"crash_root": clean, "crash_count_index": bool(cfg.get("ref_gz"))}, events=ev, cwd=d if cfg.get("relative") else None)
         if cfg.get("dirty") and r["rc"] == 0:
             # the tree every resumed run is compared with is the clean-folder run
             for rel, why in runner.compare_trees(os.path.join(ref_clean, pipeline.PREFIX), os.path.join(clean, pipeline.PREFIX))[:4]:
@@ -243,7 +267,7 @@ def run(chk, scratch):
             # every third crash point: the process dies immediately AFTER the mutation (a marker file exists, nothing written since has
             # been flushed), otherwise immediately before it
             r1 = runner.run_isoquant(args_for(cfg, d, out, extra, saves=sv), home, mon=["crash"],
-                                     cfg={"crash_root": out, "crash_at": n, "crash_after": after(n)}, events=os.path.join(d, "ev%d" % n),
+                                     cfg={"crash_root": out, "crash_at": n, "crash_after": after(n), "crash_count_index": bool(cfg.get("ref_gz"))}, events=os.path.join(d, "ev%d" % n),
                                      cwd=d if cfg.get("relative") else None)
             r2 = None
             if r1["rc"] == 137:
@@ -311,7 +335,7 @@ def run(chk, scratch):
                     chk.violation("resume-exit-nonzero:resumed-run-killed:" + tag2, "%s: killed after the first chromosome was collected, resumed, the RESUMED run killed right after it "
                                   "opened %s, resumed again: exit %s: %s" % (cname, ".params for rewriting" if tag2 == "params" else "its first _processed lock", k3["rc"], last[0][:200]), wit2)
                 else:
-                    for rel, why in tree_diffs(cfg, clean, out2)[:4]:
+                    for rel, why in [x for x in tree_diffs(cfg, clean, out2) if "aux" not in x[0].split(os.sep)][:4]:
                         chk.violation("silent-diff:resumed-run-killed:" + tag2, "%s: second resume exits 0 but %s %s" % (cname, rel, why), wit2)
                 shutil.rmtree(out2, ignore_errors=True)
         # file-system mutations, e.g. between a write and the flush that makes it durable); k is drawn uniformly after .params was written
